@@ -391,7 +391,7 @@ def run_check(prop, tier, seed, only_shard=None):
                 n += 1
                 with open(rp, "w") as f:
                     json.dump({"property": prop, "tier": tier, "seed": seed, "sig": v["sig"],
-                               "detail": v["detail"], "case": v["case"]}, f, indent=1)
+                               "detail": v["detail"], "shard": v.get("shard"), "case": v["case"]}, f, indent=1)
                 print(f"VIOLATION property={prop} replay={rp}")
                 print(f"   sig={v['sig']} (x{unknown[v['sig']]})")
                 print(f"   {v['detail'][:600]}")
